@@ -314,6 +314,10 @@ theorem grow_free (st : St) (a : Nat) : Grow st (st.free a) := by
   · exact grow_setW st a _ rfl
   · exact grow_fail st _
 
+theorem grow_sigRecord (st : St) (s : Int) : Grow st (sigRecord st s) := by
+  unfold sigRecord
+  split <;> first | exact Grow.of_eq rfl rfl | exact Grow.refl _
+
 theorem grow_raiseSig (st : St) (s : Int) : Grow st (raiseSig st s) := by
   unfold raiseSig
   split
@@ -321,7 +325,7 @@ theorem grow_raiseSig (st : St) (s : Int) : Grow st (raiseSig st s) := by
   · split
     · exact Grow.of_eq rfl rfl
     · split
-      · exact Grow.of_eq rfl rfl
+      · exact grow_sigRecord st s
       · split
         · exact Grow.of_eq rfl rfl
         · exact Grow.refl st
@@ -407,11 +411,27 @@ theorem grow_ensureSigchld (st : St) : Grow st (ensureSigchld st) := by
   · exact Grow.refl _
   · exact (grow_watchSignal _ _ _ _).trans (Grow.of_eq rfl rfl)
 
+theorem grow_setNotify (st : St) (a : Nat) (n : Option Nat) : Grow st (setNotify st a n) := by
+  unfold setNotify
+  exact grow_setW st a { st.getW a with notify := n } rfl
+
+theorem grow_linkNotified (r : St × Nat) (a : Nat) (flags : Nat) : Grow r.1 (linkNotified r a flags) := by
+  unfold linkNotified
+  exact ((grow_setNotify r.1 a (some r.2)).trans (grow_insertWatch _ _ _ _)).trans (grow_with_procs _ _)
+
+theorem grow_clearNotify (st : St) (a : Nat) : Grow st (clearNotify st a) := by
+  unfold clearNotify
+  split
+  · exact grow_setNotify st a none
+  · exact Grow.refl _
+
 theorem grow_linkProcess (st : St) (a : Nat) (pid : Int) (flags : Nat) : Grow st (linkProcess st a pid flags) := by
   unfold linkProcess
   simp only []
   split
-  · exact ((grow_waitpid _ _).trans (grow_setWstatus _ _ _)).trans (grow_watchLater _ _ _ _)
+  · split
+    · exact (((grow_waitpid _ _).trans (grow_setWstatus _ _ _)).trans (grow_watchLater _ _ _ _)).trans (grow_linkNotified _ _ _)
+    · exact ((grow_waitpid _ _).trans (grow_setWstatus _ _ _)).trans (grow_watchLater _ _ _ _)
   · exact ((grow_waitpid _ _).trans (grow_insertWatch _ _ _ _)).trans (grow_with_procs _ _)
 
 theorem grow_watchProcess (st : St) (pid : Int) (flags : Nat) (slot : Int) :
@@ -516,8 +536,18 @@ theorem pres_cancelFound (st : St) (a : Nat) (w : Watch) (l : List Nat) (hl : l 
     ((((grow_cancelNotify _ a w).trans (grow_cancelHook _ w.type w.evi)).trans (grow_free _ a)).trans
       (grow_cancelRest _ _)).pres
 
-theorem pres_watchCancel (st : St) (a : Nat) : Pres st (watchCancel st a) := by
-  unfold watchCancel
+theorem grow_cancelDetached (st : St) (a : Nat) : Grow st (cancelDetached st a) := by
+  unfold cancelDetached
+  exact (grow_cancelNotify st a _).trans (grow_setW _ a _ rfl)
+
+theorem grow_laterPre (st : St) (a : Nat) : Grow st (laterPre st a) := by
+  unfold laterPre
+  split
+  · exact grow_setW _ a _ rfl
+  · exact Grow.refl _
+
+theorem pres_watchCancel0 (st : St) (a : Nat) : Pres st (watchCancel0 st a) := by
+  unfold watchCancel0
   split
   · exact Pres.refl st
   · split
@@ -527,8 +557,28 @@ theorem pres_watchCancel (st : St) (a : Nat) : Pres st (watchCancel st a) := by
       · split
         · exact (grow_fail st _).pres
         · split
-          · exact Pres.refl st
+          · split
+            · exact (grow_cancelDetached st a).pres
+            · exact Pres.refl st
           · exact pres_cancelFound st a _ _ rfl
+
+theorem pres_watchCancel (st : St) (a : Nat) : Pres st (watchCancel st a) := by
+  unfold watchCancel
+  split
+  · split
+    · exact (pres_watchCancel0 st a).trans (pres_watchCancel0 _ _)
+    · exact pres_watchCancel0 st a
+  · exact pres_watchCancel0 st a
+
+/-- For a watch that is not a process watch `tickit_watch_cancel` is `watchCancel0`. -/
+theorem watchCancel_eq0 (st : St) (a : Nat) (h : (st.getW a).type ≠ .process) : watchCancel st a = watchCancel0 st a := by
+  unfold watchCancel
+  rw [if_neg]
+  intro hh
+  have := hh.2
+  unfold cancelFindsProcess at this
+  simp only [Bool.and_eq_true, beq_iff_eq] at this
+  exact h this.1.2
 
 theorem grow_with_slots (st : St) (l : List SlotRec) : Grow st { st with slots := l } := Grow.of_eq rfl rfl
 theorem grow_with_errno (st : St) (e : Int) : Grow st { st with errno := e } := Grow.of_eq rfl rfl
@@ -545,11 +595,13 @@ theorem pres_doRegister (st : St) (k : Int) (reg : St → St × Nat) (h : ∀ s,
     · exact (grow_emit _ _).pres
     · exact (h st).trans (grow_with_slots _ _).pres
 
+theorem grow_with_cancelReq (st : St) (l : List Int) : Grow st { st with cancelReq := l } := Grow.of_eq rfl rfl
+
 theorem pres_doCancel (st : St) (k : Int) : Pres st (doCancel st k) := by
   unfold doCancel
   split
   · exact (grow_emit _ _).pres
-  · exact pres_watchCancel _ _
+  · exact (grow_with_cancelReq _ _).pres.trans (pres_watchCancel _ _)
 
 /-- Everything a callback can do keeps the timer queue ordered. -/
 theorem pres_runAct (st : St) (act : Act) : Pres st (runAct st act) := by
@@ -964,7 +1016,7 @@ theorem pres_processNotify (st : St) (a : Nat) : Pres st (processNotify st a) :=
   unfold processNotify
   split
   · exact (grow_fail _ _).pres
-  · exact pres_invokeWatch _ _ _ _
+  · exact (grow_clearNotify _ _).pres.trans (pres_invokeWatch _ _ _ _)
 
 theorem pres_laterCb (st : St) (a : Nat) : Pres st (laterCb st a) := by
   unfold laterCb
@@ -985,32 +1037,34 @@ theorem pres_laterLoopT (l : List Nat) : ∀ st : St, Pres st (laterLoopT st l).
     · split
       · exact (grow_fail _ _).pres
       · split
-        · exact pres_laterCb _ _
+        · exact (grow_free _ a).pres.trans (ih _)
         · split
-          · exact (pres_laterCb _ _).trans (grow_fail _ _).pres
-          · exact ((pres_laterCb _ _).trans (grow_free _ a).pres).trans (ih _)
+          · exact (grow_laterPre st a).pres.trans (pres_laterCb _ a)
+          · split
+            · exact ((grow_laterPre st a).pres.trans (pres_laterCb _ a)).trans (grow_fail _ _).pres
+            · exact (((grow_laterPre st a).pres.trans (pres_laterCb _ a)).trans (grow_free _ a).pres).trans (ih _)
 
 theorem pres_laterLoop (l : List Nat) (st : St) : Pres st (laterLoop st l) := pres_laterLoopT l st
 
-/-- The batch of deferred callbacks that was queued when the iteration began: when the loop returns
-    normally it has invoked every one of them, exactly once, in queue order. -/
-theorem laterLoopT_all (l : List Nat) : ∀ st : St, (laterLoopT st l).1.status = .ok → (laterLoopT st l).2 = l := by
+/-- The batch of deferred callbacks that was queued when the iteration began: the loop invokes its members at
+    most once each, in queue order (either variant of the source). -/
+theorem laterLoopT_sub (l : List Nat) : ∀ st : St, (laterLoopT st l).2.Sublist l := by
   induction l with
-  | nil => intro st _; rfl
+  | nil => intro st; exact List.Sublist.refl _
   | cons a rest ih =>
     intro st
     unfold laterLoopT
     split
-    · rename_i h; intro hok; exact St.not_ok_absurd h hok
+    · exact List.nil_sublist _
     · split
-      · intro hok; exact absurd hok (St.status_fail_ne _ _)
+      · exact List.nil_sublist _
       · split
-        · rename_i h; intro hok; exact St.not_ok_absurd h hok
+        · exact (ih _).cons _
         · split
-          · intro hok; exact absurd hok (St.status_fail_ne _ _)
-          · intro hok
-            show a :: (laterLoopT ((laterCb st a).free a) rest).2 = a :: rest
-            rw [ih _ hok]
+          · exact List.Sublist.cons_cons _ (List.nil_sublist _)
+          · split
+            · exact List.Sublist.cons_cons _ (List.nil_sublist _)
+            · exact List.Sublist.cons_cons _ (ih _)
 
 /-- The loop as shipped. -/
 theorem pres_timerLoopT (fuel : Nat) : ∀ (st : St) (now : TV) (this : Option Nat), Pres st (timerLoopT fuel st now this).1 := by
@@ -1183,7 +1237,9 @@ theorem grow_pollTimeout (st : St) (t : Option Int) : Grow st (pollTimeout st t)
   · exact Grow.of_eq rfl rfl
   · exact Grow.refl _
 
-theorem grow_deliverPending (st : St) : Grow st (deliverPending st) := Grow.of_eq rfl rfl
+theorem grow_deliverPending (st : St) : Grow st (deliverPending st) := by
+  unfold deliverPending
+  split <;> exact Grow.of_eq rfl rfl
 
 theorem grow_ppoll (st : St) (t : Option Int) : Grow st (ppoll st t).1 := by
   unfold ppoll
@@ -1604,7 +1660,8 @@ theorem watchCancel_exact (st : St) (a : Nat) (hok : st.status = .ok) (hl : st.l
       exact not_mem_after_first a _ hnd hb
     rw [St.live_free_ne _ _ _ hab, live_of_heap_eq hn_heap]; exact hall b hbl
   have hres : watchCancel st a = s2.free a := by
-    unfold watchCancel
+    rw [watchCancel_eq0 st a (by rcases ht with h | h <;> rw [h] <;> decide)]
+    unfold watchCancel0
     simp only [hisok, hl, htn, hpre, hcont, Bool.not_true, Bool.false_eq_true, if_false]
     unfold cancelFound
     rw [hhook, hs1, hs2]
@@ -1763,8 +1820,33 @@ theorem cfg_raiseSig (st : St) (s : Int) : (raiseSig st s).cfg = st.cfg := by
   · split
     · rfl
     · split
-      · rfl
+      · unfold sigRecord; split <;> rfl
       · split <;> rfl
+
+/-- Nothing but `evloop_init`/`evloop_destroy` moves `signal_observer`. -/
+theorem observer_raiseSig (st : St) (s : Int) : (raiseSig st s).observer = st.observer := by
+  unfold raiseSig
+  split
+  · rfl
+  · split
+    · rfl
+    · split
+      · unfold sigRecord; split <;> (rename_i h; simp only [h])
+      · split <;> rfl
+
+theorem observer_foldl_raiseSig (l : List Int) : ∀ st : St, (l.foldl raiseSig st).observer = st.observer := by
+  induction l with
+  | nil => intro st; rfl
+  | cons s rest ih => intro st; simp only [List.foldl_cons]; rw [ih, observer_raiseSig]
+
+theorem observer_pollRaise (st : St) : (pollRaise st).observer = st.observer := by
+  unfold pollRaise; rw [observer_foldl_raiseSig]
+
+theorem cfg_deliverPending (st : St) : (deliverPending st).cfg = st.cfg := by
+  unfold deliverPending; split <;> rfl
+
+theorem kpending_deliverPending (st : St) : (deliverPending st).kpending = [] := by
+  unfold deliverPending; split <;> rfl
 
 theorem cfg_foldl_raiseSig (l : List Int) : ∀ st : St, (l.foldl raiseSig st).cfg = st.cfg := by
   induction l with
@@ -1781,7 +1863,7 @@ theorem cfg_ppoll (st : St) (t : Option Int) : (ppoll st t).1.cfg = st.cfg := by
   · split
     · show (pollRaise (pollScan st)).cfg = _; rw [cfg_pollRaise]; rfl
     · split
-      · show (pollRaise (pollScan st)).cfg = _; rw [cfg_pollRaise]; rfl
+      · show (deliverPending (pollRaise (pollScan st))).cfg = _; rw [cfg_deliverPending, cfg_pollRaise]; rfl
       · show (pollTimeout (pollRaise (pollScan st)) t).cfg = _
         unfold pollTimeout
         split
@@ -1796,6 +1878,16 @@ theorem cfg_nextTimerMsec (st : St) : (nextTimerMsec st).1.cfg = st.cfg := by
     · rfl
     · split
       · rw [St.cfg_fail]; rfl
+      · rfl
+
+theorem observer_nextTimerMsec (st : St) : (nextTimerMsec st).1.observer = st.observer := by
+  unfold nextTimerMsec
+  split
+  · rfl
+  · split
+    · rfl
+    · split
+      · unfold St.fail; split <;> rfl
       · rfl
 
 theorem mem_foldl_setInsert (l : List Int) : ∀ (acc : List Int) (s : Int),
@@ -1827,11 +1919,9 @@ theorem mem_foldl_setInsert (l : List Int) : ∀ (acc : List Int) (s : Int),
       · exact List.mem_cons_of_mem _ h
 
 /-- The wait fails with `EINTR` exactly in the third case of the harness's `ppoll`; then `errno` is
-    `EINTR`, nothing stays pending in the kernel, and every signal that was pending has been recorded
-    by the loop's handler. -/
-theorem ppoll_eintr (st : St) (t : Option Int) (h : (ppoll st t).2 = none) :
-    (ppoll st t).1.errno = EINTR ∧ (ppoll st t).1.kpending = [] ∧
-    ∀ s ∈ (pollRaise (pollScan st)).kpending, s ∈ (ppoll st t).1.pendingSig := by
+    `EINTR` and nothing stays pending in the kernel. -/
+theorem ppoll_eintr_errno (st : St) (t : Option Int) (h : (ppoll st t).2 = none) :
+    (ppoll st t).1.errno = EINTR ∧ (ppoll st t).1.kpending = [] := by
   unfold ppoll at h ⊢
   split at h
   · cases h
@@ -1840,11 +1930,52 @@ theorem ppoll_eintr (st : St) (t : Option Int) (h : (ppoll st t).2 = none) :
     · split at h
       · rename_i h1 h2 h3
         rw [if_neg h1, if_neg h2, if_pos h3]
-        refine ⟨rfl, rfl, ?_⟩
+        refine ⟨rfl, ?_⟩
+        show (deliverPending (pollRaise (pollScan st))).kpending = []
+        exact kpending_deliverPending _
+      · cases h
+
+/-- … and, when `signal_observer` points at the loop that waits, every signal that was pending has been
+    recorded by the handler in this loop's `pending_signals`. -/
+theorem ppoll_eintr (st : St) (t : Option Int) (ho : st.observer = .self) (h : (ppoll st t).2 = none) :
+    (ppoll st t).1.errno = EINTR ∧ (ppoll st t).1.kpending = [] ∧
+    ∀ s ∈ (pollRaise (pollScan st)).kpending, s ∈ (ppoll st t).1.pendingSig := by
+  refine ⟨(ppoll_eintr_errno st t h).1, (ppoll_eintr_errno st t h).2, ?_⟩
+  unfold ppoll at h ⊢
+  split at h
+  · cases h
+  · split at h
+    · cases h
+    · split at h
+      · rename_i h1 h2 h3
+        rw [if_neg h1, if_neg h2, if_pos h3]
         intro s hs
         show s ∈ (deliverPending (pollRaise (pollScan st))).pendingSig
+        have hobs : (pollRaise (pollScan st)).observer = .self := by rw [observer_pollRaise]; exact ho
         unfold deliverPending
+        rw [hobs]
         exact mem_foldl_setInsert _ _ _ (Or.inl hs)
+      · cases h
+
+/-- When `signal_observer` does not point at the loop that waits (another toplevel instance was built
+    first, or the observer has been destroyed), an interrupted wait records nothing in this loop. -/
+theorem ppoll_eintr_not_observer (st : St) (t : Option Int) (ho : st.observer ≠ .self) (h : (ppoll st t).2 = none) :
+    (ppoll st t).1.pendingSig = (pollRaise (pollScan st)).pendingSig := by
+  unfold ppoll at h ⊢
+  split at h
+  · cases h
+  · split at h
+    · cases h
+    · split at h
+      · rename_i h1 h2 h3
+        rw [if_neg h1, if_neg h2, if_pos h3]
+        show (deliverPending (pollRaise (pollScan st))).pendingSig = _
+        have hobs : (pollRaise (pollScan st)).observer = st.observer := by rw [observer_pollRaise]; rfl
+        unfold deliverPending
+        split
+        · rename_i hh; rw [hobs] at hh; exact absurd hh ho
+        · rfl
+        · rfl
       · cases h
 
 /-- With `errno` read right after the wait (the repaired `evloop_run`), an interrupted wait always
@@ -1876,7 +2007,7 @@ theorem tick_eintr_dispatches (fuel : Nat) (st : St) (nohang : Bool) (hs : st.cf
   rw [hint]
   apply tickAfterPoll_eintr_saved
   · rw [cfg_ppoll, cfg_nextTimerMsec]; exact hs
-  · exact (ppoll_eintr _ _ hint).1
+  · exact (ppoll_eintr_errno _ _ hint).1
   · exact hok3
 
 /-- `evloop_io` with the repair: the slot it hands out has nothing reported. -/
